@@ -8,6 +8,7 @@ Not carried by a theorem: panics inside the external libraries on arbitrary byte
 import Vuego.Props.C17
 import Vuego.Lemmas.EvalInv
 import Vuego.Lemmas.NoCrashEval
+import Vuego.Lemmas.NoCrashExpr
 import Vuego.Generated.Parse
 namespace Vuego.Props.C11
 open Go Vuego
@@ -56,6 +57,14 @@ theorem evaluator_never_crashes (W : World) (hcfg : W.P.cfg = Generated.reflectC
   have h := (safeAt_all W g fuel).list { slots := [], chain := [file] } { stack := stack, seen := [] } (resolveTagsList W.comps dom)
   unfold evaluatePage
   constructor <;> intro hc <;> rw [hc] at h <;> cases h
+
+/-- for the instance the page correspondence runs every time — expressions evaluated by `ExprMini`, the reflect guards read from the
+    source — there is no hypothesis left: no file set, template, data or fuel makes the evaluator model crash -/
+theorem evaluator_never_crashes_with_exprMini (files : List (Str × (Scope × List Node))) (comps : List (Str × Str)) (jd : Str → Option Val)
+    (fuel : Nat) (file : Str) (dom : List Node) (stack : Stack) (site : String) :
+    let W : World := { P := { exprEval := ExprMini.exprEval, cfg := Generated.reflectCfg }, files := files, comps := comps, jsonDecode := jd }
+    evaluatePage W fuel file dom stack ≠ .panic site ∧ evaluatePage W fuel file dom stack ≠ .hang site :=
+  evaluator_never_crashes _ rfl (fun e env => safe_exprMini e env) fuel file dom stack site
 
 /-- the same for the pieces a render is made of: interpolation, conditions, bound attributes, the pipe interpreter -/
 theorem pieces_never_crash (P : Params) (hcfg : P.cfg = Generated.reflectCfg) (hexpr : ∀ e env, Safe (P.exprEval e env)) (s : Stack) (e a : Str) :
